@@ -102,10 +102,12 @@ def _lib():
 _L = None
 
 # defined (non-folding) element values, written from the standard's tables (TS 102 361-1 9.3.x) - used by generators only
-SAP_DEFINED = [0b0000, 0b0010, 0b0011, 0b0100, 0b0101, 0b1001, 0b1010]
-DDF_DEFINED = list(range(0b011001))
-UDT_FORMAT_DEFINED = [0, 1, 2, 3, 4, 5, 6, 7, 0b1010]
-ACTIVITY_DEFINED = [0b0000, 0b0010, 0b0011, 0b1000, 0b1001, 0b1010, 0b1011, 0b1100, 0b1101]
+# (the values the library's enums keep as they are, i.e. the fixed points of their reserved-value folding: the defined
+# code points plus the one code point each enum uses as its "Reserved"/"ManufacturerSpecific" representative)
+SAP_DEFINED = [0b0000, 0b0010, 0b0011, 0b0100, 0b0101, 0b1001, 0b1010, 0b1111]
+DDF_DEFINED = list(range(0b011001)) + [0b111111]
+UDT_FORMAT_DEFINED = [0, 1, 2, 3, 4, 5, 6, 7, 0b1000, 0b1010, 0b1111]
+ACTIVITY_DEFINED = [0b0000, 0b0001, 0b0010, 0b0011, 0b1000, 0b1001, 0b1010, 0b1011, 0b1100, 0b1101]
 HRNP_OPCODES = ["CONNECT", "ACCEPT", "REJECT", "CLOSE", "CLOSE_ACK", "DATA", "DATA_ACK"]
 RATE_DATA_OCTETS = {("r12", False): 10, ("r12", True): 6, ("r34", False): 16, ("r34", True): 12, ("r1", False): 22, ("r1", True): 18}
 
@@ -892,8 +894,35 @@ def _pdu_strategy(kind, pool):
             fx(opcode=st.sampled_from([o for o in HRNP_OPCODES if o != "DATA"]), hdap=st.just(""), **hdr),
             fx(opcode=st.just("DATA"), hdap=st.sampled_from(pool), **hdr),
             fx(opcode=st.just("DATA"), hdap=st.sampled_from(pool), **hdr),
+            fx(opcode=st.just("DATA"), hdap=st.sampled_from(pool), **hdr).map(hrnp_double_carry),
         )
     raise HarnessError(kind)
+
+
+def hrnp_sum(case):
+    """Unfolded sum of the 16-bit words of the datagram described by ``case`` (checksum field excluded), computed from
+    the field values (generator aid, independent of the library's serialiser except for the opcode numbers)."""
+    L = _lib()
+    payload = bytes.fromhex(case["hdap"]) if case["opcode"] == "DATA" else b""
+    hdr = bytes([0x7E, case["version"], case["block"], L.HRNPOpcodes[case["opcode"]].value, case["src"], case["dst"]]) + case["pn"].to_bytes(2, "big") + (12 + len(payload)).to_bytes(2, "big")
+    data = hdr + payload
+    if len(data) % 2:
+        data += b"\x00"
+    return sum((data[i] << 8) | data[i + 1] for i in range(0, len(data), 2))
+
+
+def hrnp_double_carry(case):
+    """Boundary class: choose the packet number so that the word sum has 0xFFFF in its low half and a non-zero high half -
+    the end-around carry then overflows again and a second fold is needed."""
+    case = dict(case, pn=0)
+    s0 = hrnp_sum(case)
+    case["pn"] = (0xFFFF - (s0 & 0xFFFF)) & 0xFFFF
+    return case
+
+
+def hrnp_is_double_carry(case):
+    s = hrnp_sum(case)
+    return (s & 0xFFFF) + (s >> 16) > 0xFFFF
 
 
 def _check_width(kind):
@@ -924,11 +953,22 @@ def drv_rt_pdu(ctx: Ctx, sub: SubCheck):
                 cls += ":last" if case["last"] else ":continuation"
             if kind == "hrnp":
                 cls += ":" + ("DATA" if case["opcode"] == "DATA" else "control")
+                if hrnp_is_double_carry(case):
+                    tt.cls(sub.name, "hrnp:double_end_around_carry")
             tt.case(sub.name, key=case, nontrivial=chk not in (None, 0, (1 << w) - 1), cls=cls)
 
         ctx.hypothesis(sub.name, _pdu_strategy(kind, pool), oracle, 1 if kind == "short_lc_null" else n, tally=t, shard=kind, record=record)
 
     ctx.shards(work, ALL_KINDS)
+
+    # short LC: every pair of activity ids (10 x 10) with seeded random addresses, always
+    rng = ctx.rng("short_lc_pairs")
+    for a1 in ACTIVITY_DEFINED:
+        for a2 in ACTIVITY_DEFINED:
+            for _ in range(ctx.pick(1, 8)):
+                case = {"kind": "short_lc_activity", "a1": a1, "a2": a2, "ad1": rng.getrandbits(8), "ad2": rng.getrandbits(8)}
+                chk, ok = _run(ctx, sub.name, oracle_rt_pdu, case, ctx.tally)
+                ctx.tally.case(sub.name, key=case, nontrivial=chk not in (None, 0, 0xFF), cls="short_lc_activity:all_id_pairs")
 
 
 def drv_words(code, nbits):
@@ -968,20 +1008,21 @@ FAULT_PLAN = {
 
 
 def _fault_budget(ctx: Ctx, kind):
-    """(number of random PDUs, number of low-weight-check PDUs, full burst length, sampled long bursts, sampled weight-3 or None)"""
+    """(random PDUs, low-weight-check PDUs, burst length up to which every interior pattern is enumerated, number of sampled
+    longer bursts, number of sampled weight-3 patterns or None = all)"""
     q = ctx.quick
     if kind.startswith("dh_"):
-        return (2, 1, 7, 1500, 3000) if q else (10, 4, 11, 20000, None)
+        return (2, 1, 7, 1500, 3000) if q else (6, 2, 10, 10000, None)
     if kind == "pi_header":
-        return (3, 0, 7, 1500, 3000) if q else (14, 0, 11, 20000, None)
+        return (3, 0, 7, 1500, 3000) if q else (8, 0, 10, 10000, None)
     if kind == "short_lc_activity":
         return (4, 2, 8, 0, None) if q else (40, 12, 8, 0, None)
     if kind == "short_lc_null":
         return (1, 0, 8, 0, None)
     if kind in RATE_KINDS:
-        return (2, 1, 6, 1500, None) if q else (10, 4, 9, 0, None)
+        return (2, 1, 6, 1500, None) if q else (8, 4, 9, 0, None)
     if kind == "hrnp":
-        return (8, 0, 6, 1500, None) if q else (60, 0, 9, 12000, None)
+        return (8, 0, 6, 1500, None) if q else (48, 0, 9, 8000, None)
     raise HarnessError(kind)
 
 
@@ -1028,18 +1069,52 @@ def make_fault_driver(group):
                 plan_note[label] = {"pdu_class": pcls, "code_bits": n, "enumerated_patterns": npat, "sampled_long_bursts": n_sb if w > full_burst else 0,
                                     "sampled_weight_3": (n_w3 or 0) if t_all >= 3 else 0, "all_weights_up_to": t_all if all_w3 else min(t_all, 2), "burst_up_to": w,
                                     "bursts_with_every_interior_up_to": min(full_burst, w)}
+            if kind in RATE_KINDS:
+                # directed: last blocks whose 32-bit message CRC has weight 1..2, corrupted so that it reads 0 (a pattern
+                # of weight <= 2 inside the guaranteed set; the value 0 is special-cased by CRC9.calculate_from_parts)
+                for j in range(ctx.pick(1, 6)):
+                    base = gen_pdu(rng, kind, last=True)
+                    n = expected_wire_bits(base)
+                    spec = (kind, "low_weight_crc32", base, n, 2, 9, f"{kind}:crc32z:{j}", 0, 0, 0, False)
+                    items.append(spec + ("crc32_zeroing", 0, 0))
+                    plan_note[f"{kind}:crc32z:{j}"] = {"pdu_class": "low_weight_crc32", "code_bits": n, "enumerated_patterns": 528,
+                                                       "note": "528 PDUs (every crc32 of weight 1..2) x the one pattern that zeroes the crc32 field"}
         ctx.tally.extra.setdefault("fault_plan", {}).update(plan_note)
 
         def work(it, t: Tally):
             kind, pcls, pdu, n, t_all, w, label, full_burst, n_sb, n_w3, all_w3, part, lo, hi = it
             g, layout = code_params(pdu, n)
-            if part == "complete":
-                pats = patterns_complete(n, t_all, w, full_burst, all_w3)[lo:hi]
-            else:
-                pats = patterns_sampled(n, t_all, w, full_burst, n_sb, n_w3, ctx.rng("patterns", label))
             counts = {}
-            for pcl, code_pos in pats:
-                case = {"pdu": pdu, "flips": sorted(layout[c] for c in code_pos)}
+            if part == "crc32_zeroing":
+                cases = []
+                for k in (1, 2):
+                    for bits in itertools.combinations(range(32), k):
+                        v = 0
+                        for b in bits:
+                            v |= 1 << (31 - b)
+                        cases.append(("crc32_zeroing", dict(pdu, crc32=v), [n - 32 + b for b in bits]))
+            else:
+                if part == "complete":
+                    pats = patterns_complete(n, t_all, w, full_burst, all_w3)[lo:hi]
+                else:
+                    pats = patterns_sampled(n, t_all, w, full_burst, n_sb, n_w3, ctx.rng("patterns", label))
+                cases = [(pcl, pdu, sorted(layout[c] for c in code_pos)) for pcl, code_pos in pats]
+            length0 = None
+            for pcl, the_pdu, flips in cases:
+                if kind == "hrnp" and any(64 <= f < 80 for f in flips):
+                    # the length field decides which octets belong to the datagram: a corruption that *shortens* it is
+                    # outside the guaranteed set of the ones-complement sum (the dropped words leave the sum); one that
+                    # lengthens it must be refused (packet incomplete) and stays in.
+                    if length0 is None:
+                        length0 = n // 8
+                    newlen = length0
+                    for f in flips:
+                        if 64 <= f < 80:
+                            newlen ^= 1 << (79 - f)
+                    if newlen < length0:
+                        t.excluded["hrnp_length_field_shortened:not_in_guaranteed_set"] += 1
+                        continue
+                case = {"pdu": the_pdu, "flips": flips}
                 outcome, ok = _run(ctx, sub.name, oracle_fault, case, t)
                 key = (pcl, outcome or ("known_finding" if ok else "violation"))
                 counts[key] = counts.get(key, 0) + 1
@@ -1047,9 +1122,9 @@ def make_fault_driver(group):
                 t.case(sub.name, nontrivial=outcome != "harmless", cls=f"{kind}:{pcl}", n=c)
                 t.cls(sub.name, f"outcome:{kind}:{outcome}", c)
                 t.cls(sub.name, f"pdu_class:{kind}:{pcls}", c)
-            if pats:
-                mid = pats[len(pats) // 2]
-                t.sample(sub.name, {"pdu": pdu, "flips": sorted(layout[c] for c in mid[1])})
+            if cases:
+                mid = cases[len(cases) // 2]
+                t.sample(sub.name, {"pdu": mid[1], "flips": mid[2]})
 
         ctx.shards(work, items)
         # complete over the stated pattern classes per PDU; the PDUs themselves are sampled
